@@ -3,6 +3,7 @@ package main
 import (
 	"bufio"
 	"fmt"
+	"math"
 	"os"
 	"path/filepath"
 
@@ -52,6 +53,9 @@ func runFile(path string) {
 
 func runPrompt() {
 	scanner := bufio.NewScanner(os.Stdin)
+	// A Scanner gives up (ErrTooLong) on a line that does not fit into its buffer, 64 KB by
+	// default: the session then ended without a response to that line or to any later one.
+	scanner.Buffer(nil, math.MaxInt)
 	for {
 		fmt.Printf(">> ")
 		scanned := scanner.Scan()
